@@ -23,4 +23,13 @@ PROPS = {
         "faults": ["frag", "delay/reorder-dirs", "window stall (peer withholds credit)", "handler gate order", "short reads of body streams"],
         "probes_expected": ["window-bound"],
     },
+    "C09": {
+        "level": "exploration",
+        "level_text": "Seeded exploration: one kind of stream-scoped offence from a catalogue of 24 (malformed header fields at a chosen position, over-limit bodies, refused streams, peer RST at each point of a stream's life, handler panic, per-stream flow-control errors, body-reader errors) is placed on 1-3 streams among concurrent well-formed requests, with a further request after everything else; every non-offending stream must pass the full C01 oracle and the connection must not be torn down.",
+        "level_note": "Family c09 (5/6 of the runs) keeps to offence kinds and variants for which the server is expected to behave; family c09-all (1/6) also draws the variants behind the eight known findings (signatures '<variant>/<offence>/<rule>' in known-findings.txt), so their neighbourhood stays exercised without blinding the search.",
+        "design_ref": "DESIGN.md §3 C09",
+        "rule": "a run = seeded plan (2-7 requests, 1-3 of them offending with one offence kind and variant, one request after all others) under one seeded schedule. Non-trivial: an offending stream was opened, at least one well-formed stream was opened after it, and at least 3 streams were seen by the peer. Distinct: interleaving hash.",
+        "faults": ["frag", "delay/reorder-dirs", "handler gate order", "handler panic", "body-reader error", "peer RST_STREAM at scheduled points"],
+        "probes_expected": ["offender-stopped-after-rst"],
+    },
 }
